@@ -67,7 +67,11 @@ def strategy_(draw, tier):
                                          max_size=3)),
                 "name": draw(st.sampled_from(["foo", "foo", "a b", "x.trashinfo"]) if draw(st.booleans())
                              else gen.names(long_ok=True)),
-                "tkind": draw(st.sampled_from(["home", "top_alt", "top_sticky"]))}
+                "tkind": draw(st.sampled_from(["home", "top_alt", "top_sticky"])),
+                # after the first put its .trashinfo is removed (what an interrupted purge leaves):
+                # the payload is now an orphan under whatever name trash-put gave it - also a
+                # truncated one for names near NAME_MAX - and must survive the following puts
+                "orphan_first": draw(st.integers(0, 3)) == 0}
     return {"mode": "sched", "scen": draw(st.sampled_from(SCEN)),
             "segs": [[draw(st.integers(0, 2)), draw(st.integers(0, 25))]
                      for _ in range(draw(st.integers(0, 7)))]}
@@ -269,6 +273,16 @@ def run_seq(out, case):
     before = sandbox.snapshot()
     codes = []
     orph = sorted(set(case["orphans"])) if short else []
+    if case.get("orphan_first") and len(srcs) >= 2:
+        r = runner.run(spec, "trash-put", ["--", srcs[0]])
+        mid = sandbox.snapshot()
+        infos = [p for p in mid if p not in before and p.startswith(tdir + "/info/")]
+        if r.code == 0 and len(infos) == 1:
+            import os
+            os.remove(sandbox.wp(infos[0]))
+            srcs = srcs[1:]
+            before = sandbox.snapshot()
+            orph = orph + ["first_put_orphaned"]
     tags = dict(mode="seq", prepop=case["prepop"] if short else 0,
                 dangling_orphan=("dangling_payload" in orph))
     for s in srcs:
